@@ -183,6 +183,7 @@ func (h *Handler) MinuteTicker(now time.Time) error {
 
 func configChanged(config SubnetConfig, current SubnetConfig) bool {
 	if config.LAN.Addr() != current.LAN.Addr() ||
+		config.LAN.Bits() != current.LAN.Bits() ||
 		config.DefaultGW != current.DefaultGW ||
 		config.DNSServer != current.DNSServer ||
 		config.DHCPServer != current.DHCPServer ||
